@@ -103,14 +103,21 @@ def loop_owner_vars(func: ast.AST, selfname: str = "self") -> Dict[str, List[str
                 it = it.args[0]
                 if isinstance(tgt, ast.Tuple) and len(tgt.elts) == 2:
                     tgt = tgt.elts[1]
+            def chan(e):
+                p = chain_parts(e)
+                return channel_of_name(p[1]) if len(p) >= 2 and p[0] == selfname else (channel_of_name(p[0]) if len(p) == 1 else None)
             if isinstance(it, (ast.List, ast.Tuple)) and isinstance(tgt, ast.Name):
-                chs = []
-                for e in it.elts:
-                    p = chain_parts(e)
-                    chs.append(channel_of_name(p[1]) if len(p) >= 2 and p[0] == selfname else
-                               (channel_of_name(p[0]) if len(p) == 1 else None))
+                chs = [chan(e) for e in it.elts]
                 if all(c is not None for c in chs) and chs:
                     out[tgt.id] = chs
+            elif isinstance(it, (ast.List, ast.Tuple)) and isinstance(tgt, ast.Tuple) and it.elts \
+                    and all(isinstance(e, (ast.Tuple, ast.List)) and len(e.elts) == len(tgt.elts) for e in it.elts):
+                # for datak, phases in ((self.data_K_up, p_up), (self.data_K_down, p_down)): every position that is a channel object in all rows
+                for k, t in enumerate(tgt.elts):
+                    if isinstance(t, ast.Name):
+                        chs = [chan(e.elts[k]) for e in it.elts]
+                        if all(c is not None for c in chs):
+                            out[t.id] = chs
     return out
 
 
